@@ -5,7 +5,7 @@ HERE = os.path.dirname(os.path.dirname(os.path.abspath(__file__)))
 ALL = ["C%02d" % i for i in range(1, 19)]
 GEN = (" Second tie (regenerated on every run): translate/py2coq.py translates tcp_signatures_match, calculate_window_multiplier, find_tcp_match, the "
        "TCPResult distance, round_frequency, guess_distance, should_fingerprint, the three valid_for_*_fingerprint gates, MTUPacketSignature.from_mss, "
-       "mtu_signatures_match, find_mtu_match, find_http_match, HTTP.software and the dishonest flag from /repo's CURRENT source to Gallina (fail-closed "
+       "mtu_signatures_match, find_mtu_match, find_http_match, HTTP.software, the dishonest flag and TCPOptions.parse (the option walker) from /repo's CURRENT source to Gallina (fail-closed "
        "subset incl. for/while loops, early return, optional values) and coq/Gen/GenP.v proves the generated definitions equal to the hand-written models "
        "for all inputs, so for these functions the theorems are re-checked against what the code says now.")
 TIE = ("Tie to /repo: the hand-written Gallina model is extracted (ExtrOcamlBasic) and run against the working tree's pyp0f on "
@@ -47,14 +47,14 @@ CLAIMED = {
                   "exactly the documented quirk sets; whole-packet composition for both versions (every packet-signature field equals the header "
                   "field); on option areas made of well-formed options the walker reports kinds in wire order, last MSS/scale/timestamp, EOL padding, "
                   "opt+/exws/ts1-/ts2+ in the documented wording; 'bad' is set EXACTLY for the areas that are not well-formed (both directions), and a "
-                  "wrong-length fixed-format option is never turned into a value. " + TIE + " Packets are built by a Scapy-free byte builder; Scapy "
+                  "wrong-length fixed-format option is never turned into a value. " + TIE + GEN + " Packets are built by a Scapy-free byte builder; Scapy "
                   "dissection sits on the implementation side of the tie.",
              note="Trusted: as C01; Scapy is not modelled (the model answers only for well-framed IPv4/IPv6+TCP datagrams, which the harness builds); IPv6 "
                   "extension headers and link-layer trailers are outside the demand. No axioms.",
              tech="Coq proof (codec inversion, TLV walker soundness+completeness) + extracted-model differential correspondence on raw bytes", ref="DESIGN.md section 4 C03"),
  "C04": dict(text="Coq theorems: the option walker terminates within one iteration per byte for EVERY byte string and its layout never exceeds the number "
                   "of option bytes; the dissector model yields a packet or PacketError; the tcp/mtu/uptime fingerprint models yield a result, PacketError or "
-                  "DatabaseError only; the HTTP reader returns a result or PacketError for EVERY byte string (no Crash constructor reachable). " + TIE +
+                  "DatabaseError only; the HTTP reader returns a result or PacketError for EVERY byte string (no Crash constructor reachable). " + TIE + GEN +
                   " The implementation is run under a per-call alarm and address-space limit on mutated packets/payloads (hostile options, inconsistent "
                   "lengths, truncations, leading CR/LF, non-ASCII) and must answer ok or PacketError.",
              note="Trusted: as C01; byte strings Scapy itself refuses to dissect are outside the quantifier (counted as dissect-failed); work/memory "
@@ -92,7 +92,7 @@ CLAIMED = {
              note="Trusted: as C09; random.choice replaced by an indexable stub. No axioms.",
              tech="Coq proof (label round trip, lookup soundness/completeness) + extracted-model differential correspondence", ref="DESIGN.md section 4 C15"),
  "C18": dict(text="Coq theorems: parse_layout (dump_layout l pad) = (l, pad if EOL present) for every layout over kinds 0..255 and padding 0..255; "
-                  "parse_quirks (dump_quirks q) = q for all 2^17 quirk sets legal for the version; int(str(n)) = n. " + TIE + " Real packets are dumped, "
+                  "parse_quirks (dump_quirks q) = q for all 2^17 quirk sets legal for the version; int(str(n)) = n. " + TIE + GEN + " Real packets are dumped, "
                   "parsed back and matched against themselves by the real code.",
              note="Trusted: as C09. 'A signature written from a packet matches it exactly' is checked on the implementation (and its ingredients are the C01/C03 "
                   "theorems) but not proved as one composed theorem. No axioms.",
